@@ -313,7 +313,7 @@ Definition scenario (oc : bool) (size clen : N) (q1 q2 : req) (data holes : list
 
 (* ---- damage done to the stored regions from outside (the differential engine does the same
    through the rawdb API): used to exercise the error kinds of the reset list. *)
-Inductive tamper := TNone | THeaderVersion | TFormatByte | TShortMain | TAuxOdd.
+Inductive tamper := TNone | THeaderVersion | TFormatByte | TShortMain | TAuxOdd | TMisaligned.
 
 Definition odd_aux (a : option auxreg) : option auxreg :=
   match a with Some r => Some {| a_len := 7; a_data := a_data r |} | None => None end.
@@ -329,6 +329,10 @@ Definition apply_tamper (t : tamper) (fam : family) (s : store) : store :=
                            m_hdr := {| h_hv := h_hv (m_hdr m); h_vv := h_vv (m_hdr m); h_fmt := 7 |} |})
   | TShortMain, Some m =>
       with_main s (Some {| m_len := 10; m_hdr := m_hdr m; m_data := [] |})
+  (* three stray bytes appended to the main region: header, version and format intact, the data
+     area no longer a whole number of elements (raw: CorruptedRegion; compressed: not looked at) *)
+  | TMisaligned, Some m =>
+      with_main s (Some {| m_len := m_len m + 3; m_hdr := m_hdr m; m_data := m_data m |})
   | TAuxOdd, _ =>
       match fam with
       | Raw => with_holes s (odd_aux (s_holes s))
